@@ -36,6 +36,7 @@ import (
 	"github.com/AdguardTeam/AdGuardDNS/internal/agdpasswd"
 	"github.com/AdguardTeam/AdGuardDNS/internal/agdtest"
 	"github.com/AdguardTeam/AdGuardDNS/internal/billstat"
+	"github.com/AdguardTeam/AdGuardDNS/internal/bindtodevice"
 	"github.com/AdguardTeam/AdGuardDNS/internal/debugsvc"
 	"github.com/AdguardTeam/AdGuardDNS/internal/dnsmsg"
 	"github.com/AdguardTeam/AdGuardDNS/internal/dnsserver"
@@ -602,6 +603,36 @@ func vc20ReleasePools(v reflect.Value, depth int) {
 	}
 }
 
+// vc20BasePorts returns a copy of ilc in which the fresh ports of the case stand
+// for the ports of the base tree again: a fresh port is no difference of the
+// configuration.
+func (fx *vc20Fixture) vc20BasePorts(ilc *interfaceListenersConfig) (res *interfaceListenersConfig) {
+	if ilc == nil {
+		return nil
+	}
+
+	res = &interfaceListenersConfig{
+		List:              map[bindtodevice.ID]*interfaceListener{},
+		ChannelBufferSize: ilc.ChannelBufferSize,
+	}
+	for id, l := range ilc.List {
+		if l == nil {
+			res.List[id] = nil
+
+			continue
+		}
+
+		cp := *l
+		if back, ok := fx.portBack[cp.Port]; ok {
+			cp.Port = back
+		}
+
+		res.List[id] = &cp
+	}
+
+	return res
+}
+
 // vc20Exercise builds what the builder would build from c and serves queries.
 func (fx *vc20Fixture) vc20Exercise(c *configuration) (o *vc20Outcome) {
 	o = &vc20Outcome{stepErrs: map[string]string{}}
@@ -649,10 +680,12 @@ func (fx *vc20Fixture) vc20Exercise(c *configuration) (o *vc20Outcome) {
 	filtersSame := base != nil && same(c.Filters, base.Filters)
 	geoSame := base != nil && same(c.GeoIP, base.GeoIP) && fx.baseGeo != nil
 	webSame := base != nil && same(c.Web, base.Web)
-	listenersSame := base != nil && same(c.DNS, base.DNS) && same(c.RateLimit.TCP, base.RateLimit.TCP) &&
+	// With forceFull the listeners are created, started and queried for every
+	// configuration, whatever it shares with the distributed one.
+	listenersSame := !fx.forceFull && base != nil && same(c.DNS, base.DNS) && same(c.RateLimit.TCP, base.RateLimit.TCP) &&
 		same(c.RateLimit.QUIC, base.RateLimit.QUIC) && same(c.RateLimit.ConnectionLimit, base.RateLimit.ConnectionLimit) &&
 		same(c.ServerGroups, base.ServerGroups) && same(c.Network, base.Network) &&
-		same(c.InterfaceListeners, base.InterfaceListeners)
+		same(fx.vc20BasePorts(c.InterfaceListeners), fx.baseIfaces)
 
 	// Hash-prefix filters, one at a time: each stops at the initial refresh
 	// (there is nothing to download), after the constructor has run with the
@@ -905,6 +938,8 @@ func (fx *vc20Fixture) vc20Exercise(c *configuration) (o *vc20Outcome) {
 	// serves real connections below.
 	var listeners []dnssvc.Listener
 	var realOrder []agd.Protocol
+	var btdServer *agd.Server
+	var btdListeners []dnssvc.Listener
 	real := map[agd.Protocol]*vc20RealListener{}
 	newListener := func(s *agd.Server, bc dnsserver.ConfigBase, nonDNS http.Handler) (l dnssvc.Listener, err error) {
 		_, have := real[s.Protocol]
@@ -921,6 +956,15 @@ func (fx *vc20Fixture) vc20Exercise(c *configuration) (o *vc20Outcome) {
 		l, err = dnssvc.NewListener(s, bc, nonDNS)
 		if l != nil {
 			listeners = append(listeners, l)
+			if isIface := len(s.BindData()) > 0 && s.BindData()[0].PrefixAddr != nil; isIface &&
+				s.Protocol == agd.ProtoDNS && (btdServer == nil || btdServer == s) {
+				// All listeners of the first plain-DNS server that is bound to
+				// interfaces are started as well, behind the real
+				// bind-to-device manager.
+				btdServer = s
+				btdListeners = append(btdListeners, l)
+			}
+
 			if isReal {
 				real[s.Protocol] = &vc20RealListener{l: l, srv: s}
 				realOrder = append(realOrder, s.Protocol)
@@ -962,6 +1006,10 @@ func (fx *vc20Fixture) vc20Exercise(c *configuration) (o *vc20Outcome) {
 		o.vc20RealListener(c, real[p])
 	}
 
+	if btdServer != nil {
+		o.vc20RealInterfaceListeners(c, b.btdManager, btdServer, btdListeners)
+	}
+
 	o.classes = append(o.classes, "exercise-full")
 	o.geo = geo
 
@@ -973,6 +1021,11 @@ type vc20RealListener struct {
 	l   dnssvc.Listener
 	srv *agd.Server
 }
+
+// vc20ClientTimeout bounds every exchange of the real clients.  Running into
+// it decides nothing, so it only has to be long enough for a loopback exchange
+// on a busy machine.
+const vc20ClientTimeout = 1500 * time.Millisecond
 
 // vc20DNSCryptPublicKey is the provider public key of the DNSCrypt
 // configuration of the distributed example.
@@ -1008,14 +1061,14 @@ func vc20CheckAnswer(req, resp *dns.Msg) (err error) {
 
 // vc20ExchangeDoT sends two pipelined queries over one TLS connection.
 func vc20ExchangeDoT(l dnssvc.Listener) (got int, err error) {
-	cli := &dns.Client{Net: "tcp-tls", TLSConfig: vc20ClientTLS(), Timeout: 5 * time.Second}
+	cli := &dns.Client{Net: "tcp-tls", TLSConfig: vc20ClientTLS(), Timeout: vc20ClientTimeout}
 	conn, err := cli.Dial(vc20Loopback(l.LocalTCPAddr()))
 	if err != nil {
 		return 0, err
 	}
 	defer func() { _ = conn.Close() }()
 
-	_ = conn.SetDeadline(time.Now().Add(5 * time.Second))
+	_ = conn.SetDeadline(time.Now().Add(vc20ClientTimeout))
 	reqs := map[uint16]*dns.Msg{}
 	for i, name := range []string{"c20-dot-1.example.net.", "c20-dot-2.example.net."} {
 		req := (&dns.Msg{}).SetQuestion(name, dns.TypeA)
@@ -1110,7 +1163,7 @@ func vc20DoQStream(ctx context.Context, conn quic.Connection, req *dns.Msg) (res
 	}
 
 	buf := binary.BigEndian.AppendUint16(nil, uint16(len(data)))
-	_ = stream.SetDeadline(time.Now().Add(5 * time.Second))
+	_ = stream.SetDeadline(time.Now().Add(vc20ClientTimeout))
 	if _, err = stream.Write(append(buf, data...)); err != nil {
 		return nil, fmt.Errorf("writing: %w", err)
 	}
@@ -1140,7 +1193,7 @@ func vc20ExchangeDoH(l dnssvc.Listener) (got int, err error) {
 	tr := &http.Transport{TLSClientConfig: vc20ClientTLS(), ForceAttemptHTTP2: true}
 	defer tr.CloseIdleConnections()
 
-	cli := &http.Client{Transport: tr, Timeout: 5 * time.Second}
+	cli := &http.Client{Transport: tr, Timeout: vc20ClientTimeout}
 	u := "https://" + vc20Loopback(l.LocalTCPAddr()) + "/dns-query"
 	post := func(req *dns.Msg) (resp *dns.Msg, err error) {
 		data, err := req.Pack()
@@ -1193,7 +1246,7 @@ func vc20ExchangeDNSCrypt(l dnssvc.Listener, srv *agd.Server) (got int, err erro
 		return 0, err
 	}
 
-	cli := &dnscrypt.Client{Timeout: 5 * time.Second, Net: "udp", UDPSize: 4096}
+	cli := &dnscrypt.Client{Timeout: vc20ClientTimeout, Net: "udp", UDPSize: 4096}
 	ri, err := cli.DialStamp(dnsstamps.ServerStamp{
 		ServerAddrStr: vc20Loopback(l.LocalUDPAddr()),
 		ServerPk:      pk,
@@ -1221,7 +1274,7 @@ func vc20ExchangePlain(l dnssvc.Listener) (got int, err error) {
 			addr = l.LocalTCPAddr()
 		}
 
-		cli := &dns.Client{Net: netw, Timeout: 5 * time.Second}
+		cli := &dns.Client{Net: netw, Timeout: vc20ClientTimeout}
 		req := (&dns.Msg{}).SetQuestion("c20-plain-"+netw+".example.net.", dns.TypeA)
 		var resp *dns.Msg
 		resp, _, err = cli.Exchange(req, vc20Loopback(addr))
@@ -1235,6 +1288,134 @@ func vc20ExchangePlain(l dnssvc.Listener) (got int, err error) {
 	}
 
 	return got, nil
+}
+
+// vc20RealInterfaceListeners starts the listeners of a plain-DNS server that is
+// bound to interfaces and the bind-to-device manager behind them, as
+// dnssvc.Service.Start and builder.startBindToDevice do, and sends one UDP and
+// one TCP query to every port.  SO_BINDTODEVICE needs root; without it the
+// part is skipped with a recorded reason.
+func (o *vc20Outcome) vc20RealInterfaceListeners(
+	c *configuration,
+	mgr *bindtodevice.Manager,
+	srv *agd.Server,
+	ls []dnssvc.Listener,
+) {
+	if os.Geteuid() != 0 {
+		o.classes = append(o.classes, "btd-real-skipped-not-root")
+
+		return
+	}
+
+	ctx := context.Background()
+	var startedLs []dnssvc.Listener
+	defer func() {
+		sctx, cancel := context.WithTimeout(ctx, 3*time.Second)
+		defer cancel()
+
+		for _, l := range startedLs {
+			_ = l.Shutdown(sctx)
+		}
+	}()
+
+	okLs := o.step("btd-listeners-start", func() (err error) {
+		for _, l := range ls {
+			if err = l.Start(ctx); err != nil {
+				return err
+			}
+
+			startedLs = append(startedLs, l)
+		}
+
+		return nil
+	})
+	if !okLs {
+		return
+	}
+
+	inUse := false
+	okMgr := o.step("bindtodevice-start", func() (err error) {
+		err = mgr.Start(ctx)
+		if err != nil && strings.Contains(err.Error(), "address already in use") {
+			inUse = true
+
+			return nil
+		}
+
+		return err
+	})
+	defer func() {
+		_ = mgr.Shutdown(ctx)
+
+		// The manager's accept and read loops look at the shutdown signal
+		// only between two connections or datagrams, and nothing closes
+		// their sockets: wake them, so that the loops end and the sockets
+		// are collected, instead of piling up in the harness process.
+		for _, bd := range srv.BindData() {
+			if bd.PrefixAddr == nil {
+				continue
+			}
+
+			addr := fmt.Sprintf("127.0.0.1:%d", bd.PrefixAddr.Port)
+			if conn, err := net.DialTimeout("tcp", addr, 200*time.Millisecond); err == nil {
+				_ = conn.Close()
+			}
+
+			if conn, err := net.Dial("udp", addr); err == nil {
+				_, _ = conn.Write([]byte{0})
+				_ = conn.Close()
+			}
+		}
+	}()
+
+	if inUse {
+		o.timeouts++
+		o.classes = append(o.classes, "btd-real-inconclusive")
+
+		return
+	} else if !okMgr {
+		return
+	}
+
+	const enough = 500 * time.Millisecond
+	dc := c.DNS
+	must := vc20SaneTimeouts(c) && dc.ReadTimeout.Duration >= enough && dc.WriteTimeout.Duration >= enough &&
+		dc.TCPIdleTimeout.Duration >= enough && !vc20AccessBlocked(c, netip.MustParseAddr("127.0.0.1"))
+
+	ports := map[uint16]struct{}{}
+	for _, bd := range srv.BindData() {
+		if bd.PrefixAddr == nil || !bd.PrefixAddr.Prefix.Contains(netip.MustParseAddr("127.0.0.1")) {
+			continue
+		}
+
+		port := bd.PrefixAddr.Port
+		if _, dup := ports[port]; dup {
+			continue
+		}
+
+		ports[port] = struct{}{}
+		for _, netw := range []string{"udp", "tcp"} {
+			start := time.Now()
+			cli := &dns.Client{Net: netw, Timeout: vc20ClientTimeout}
+			req := (&dns.Msg{}).SetQuestion("c20-btd-"+netw+".example.net.", dns.TypeA)
+			resp, _, err := cli.Exchange(req, fmt.Sprintf("127.0.0.1:%d", port))
+			if err == nil {
+				err = vc20CheckAnswer(req, resp)
+			}
+
+			elapsed := time.Since(start)
+			switch {
+			case err == nil:
+				o.classes = append(o.classes, "btd-real-answered", "btd-real-answered-"+netw)
+			case vc20IsTimeout(err) || elapsed >= 400*time.Millisecond || !must:
+				o.timeouts++
+				o.classes = append(o.classes, "btd-real-inconclusive")
+			default:
+				o.realListenerFailed = true
+				o.fail("real interface listener of server %q on lo port %d over %s: after %s: %v", srv.Name, port, netw, elapsed, err)
+			}
+		}
+	}
 }
 
 // vc20RealListener starts a real listener on a loopback port, sends real
@@ -1291,7 +1472,7 @@ func (o *vc20Outcome) vc20RealListener(c *configuration, rl *vc20RealListener) {
 	const enough = 500 * time.Millisecond
 	dc := c.DNS
 	must := vc20SaneTimeouts(c) && dc.ReadTimeout.Duration >= enough && dc.WriteTimeout.Duration >= enough &&
-		dc.TCPIdleTimeout.Duration >= enough
+		dc.TCPIdleTimeout.Duration >= enough && !vc20AccessBlocked(c, netip.MustParseAddr("127.0.0.1"))
 
 	start := time.Now()
 	var got int
@@ -1481,7 +1662,11 @@ func (fx *vc20Fixture) vc20SpecialQueries(
 
 		chk := vc20Special{tag: "dnscheck-query", wantAnswers: true}
 		ask(strings.ToLower(dom), dns.TypeA, chk)
-		ask("c20c20c20c-"+strings.ToLower(dom), dns.TypeAAAA, chk)
+		if c.Check.RemoteKV.Type == kvModeCache {
+			// With an identifier the answer is also stored in the key-value
+			// storage; the other storages are the outside world.
+			ask("c20c20c20c-"+strings.ToLower(dom), dns.TypeAAAA, chk)
+		}
 	}
 
 	for _, host := range []string{"use-application-dns.net", "mask.icloud.com", "dns-tunnel-check.googlezip.net"} {
